@@ -4,18 +4,17 @@
 From Coq Require Import List.
 Import ListNotations.
 Require Import Verif.DataModel.DmShapeTypes Verif.DataModel.DmModel Verif.Gen.DmShape.
+Require Export Verif.DataModel.DmDraw.     (* draw: the model of the current source *)
 
 Definition fixed_shape : shape := {|
   sh_rel_key := FullSplit; sh_prim_key := LastToken; sh_tuple_key := FullSplit; sh_enum_key := FullSplit;
-  sh_rel_target := TargetAppPath; sh_rel_guards_short_path := true; sh_rel_checks_target := true;
+  sh_rel_target := TargetAppTable; sh_rel_app := RelAppParam; sh_rel_guards_short_path := true; sh_rel_checks_target := true;
   sh_rel_count_new := CountConst 1; sh_rel_count_again := CountInc 1;
   sh_tuple_count_new := CountConst 1; sh_tuple_count_again := CountInc 1;
   sh_dispatch := [KRelation; KTuple; KPrimitive; KEnum];
-  sh_view := ViewAppEq
+  sh_view := ViewAppsMember
 |}.
 
 Lemma shape_current : shape_of_source = fixed_shape.
 Proof. reflexivity. Qed.
 
-(* the model of the current source *)
-Definition draw := draw_with shape_of_source.
